@@ -160,6 +160,13 @@ impl Property for C10 {
     fn id(&self) -> &'static str {
         "C10"
     }
+    fn probes_not_applicable(&self) -> Vec<(&'static str, &'static str)> {
+        vec![
+            ("probe.array_value_printed", "PDR is specified for bit-vector states only; no array values are ever requested"),
+            ("probe.let_in_value", "lets are only printed inside array values"),
+            ("probe.shadowed_store_in_value", "only array values have stores"),
+        ]
+    }
     fn runs(&self, tier: Tier) -> usize {
         match tier {
             Tier::Quick => 24_000,
